@@ -45,11 +45,51 @@ PLAN = {
              "recently removed key, or a conflict, or an aborted/failed/panicked transaction; distinct by the operation list",
         assumptions=["map model + conflict rule as stated in the property", "'_' in host labels not judged"],
         quick=[REPLAY,
-               R("model", "^(TestModel|TestNote)$", checks=2500, steps=40, timeout=900),
+               R("model", "^(TestModel|TestNote)$", checks=7000, steps=40, timeout=900),
                R("fanout", "^TestFanOut$", checks=150, timeout=900)],
         thorough=[REPLAY,
                   R("model", "^(TestModel|TestNote)$", checks=15000, steps=100, shards=16, timeout=3000),
                   R("fanout", "^TestFanOut$", checks=600, shards=8, timeout=3000)],
+    ),
+    "C03": dict(
+        pkg="c03", level="exploration",
+        technique="model-based stateful testing with snapshot re-observation (every live snapshot is re-read in full after every later step), a >4096-node transaction, and concurrent re-iteration under the race detector",
+        level_text="The C02 state machine is extended with snapshot actions (Router.Iter, Txn.Iter inside write transactions, read-only transactions kept open, "
+                   "Txn.Snapshot) at arbitrary points, also between the writes of one transaction. Each snapshot must equal the model frozen at its creation - "
+                   "All, Methods, Prefix, Routes, Has, Route, Len and recorded Lookup/Reverse answers with parameters - after every later write, commit or abort. "
+                   "A 6000-write transaction crosses the 4096-entry writable-node cache with snapshots before and after eviction.",
+        level_note="Histories are sampled; the concurrent part samples schedules under -race.",
+        rule="cases: operation histories with snapshot actions; evaluations are operations; non-trivial history = after a snapshot a write touched a route sharing a "
+             ">=2-byte prefix with a route in that snapshot (so a node on a shared path was copied); distinct by the operation list",
+        assumptions=["map model", "a snapshot is identified with the model state at its creation"],
+        quick=[REPLAY,
+               R("snapshots", "^TestSnapshots$", checks=900, steps=40, timeout=900),
+               R("large-txn", "^TestLargeTxn$", checks=3, timeout=900),
+               R("concurrent", "^TestConcurrentReaders$", race=True, env={"C03_CONC_ROUNDS": 2500}, timeout=900)],
+        thorough=[REPLAY,
+                  R("snapshots", "^TestSnapshots$", checks=10000, steps=100, shards=16, timeout=3000),
+                  R("large-txn", "^TestLargeTxn$", checks=20, shards=4, env={"C03_LARGE_ROUTES": 9000}, timeout=3000),
+                  R("concurrent", "^TestConcurrentReaders$", race=True, shards=4, env={"C03_CONC_ROUNDS": 5000}, timeout=3000)],
+    ),
+    "C04": dict(
+        pkg="c04", level="fault_enumeration",
+        technique="model-based stateful testing of transactions with fault injection (panic / error after every prefix of a transaction body) and a concurrent all-or-nothing group invariant under the race detector",
+        level_text="Transactions with generated bodies (writes, nested snapshots) are ended by Commit, Abort, a returned error or an injected panic; for generated bodies "
+                   "the fault is injected after every prefix. Between every step the router must equal the pre-transaction model and the transaction the model plus "
+                   "its own writes; afterwards all or nothing; the next write must obtain the lock (goroutine-dump verdict, not a timeout); settled and read-only "
+                   "transactions must refuse use. Concurrently, writers replace groups of 8 routes per transaction and readers (Iter pass, View, 405 Allow) must never see a mixed group.",
+        level_note="Fault points are the boundaries between operations of a transaction body (not inside one fox call); schedules of the concurrent part are sampled.",
+        rule="cases: operation histories; evaluations are operations (plus concurrent observations); non-trivial = a transaction with >= 2 writes ended by abort, error or panic, "
+             "or a fault-injection sweep over every cut; distinct by the operation list",
+        assumptions=["map model", "Updates/View re-raise the identical panic value"],
+        quick=[REPLAY,
+               R("transactions", "^TestTransactions$", checks=5000, steps=40, timeout=900),
+               R("every-cut", "^TestEveryCut$", checks=400, timeout=900),
+               R("concurrent", "^TestConcurrentGroups$", race=True, env={"C04_CONC_ROUNDS": 3000}, timeout=900)],
+        thorough=[REPLAY,
+                  R("transactions", "^TestTransactions$", checks=10000, steps=100, shards=16, timeout=3000),
+                  R("every-cut", "^TestEveryCut$", checks=3000, shards=8, timeout=3000),
+                  R("concurrent", "^TestConcurrentGroups$", race=True, shards=4, env={"C04_CONC_ROUNDS": 6000}, timeout=3000)],
     ),
     "C07": dict(
         pkg="c07", level="exploration",
@@ -166,4 +206,4 @@ PLAN = {
 HOOK_COMMITS = []
 
 _TODO = "check not built yet in this round (harness under construction); planned, see DESIGN.md section 4"
-NOT_APPLICABLE = {p: _TODO for p in ["C%02d" % i for i in range(1, 21)]}
+NOT_APPLICABLE = {p: _TODO for p in ["C%02d" % i for i in range(1, 21)] if p not in PLAN}
